@@ -110,7 +110,6 @@ func nativeFn(name string, fn interface{}, fallback func(c *Ctx, a []Value) Valu
 
 func installNative(c *Ctx) {
 	reg := func(name string, fn interface{}) { c.intrinsics[name] = nativeFn(name, fn, nil) }
-	reg("strings.Split", strings.Split)
 	reg("strings.Contains", strings.Contains)
 	reg("strings.ContainsAny", strings.ContainsAny)
 	reg("strings.HasPrefix", strings.HasPrefix)
